@@ -297,6 +297,16 @@ def run_sim_case(ctx, i):
     kn = k / k.sum()
     expd = ref.conv_full(truth, kn)[~m]
     ctx.check(float(np.abs(data - expd).max()) <= tol, "simulate.data_is_full_convolution", got=data, expected=expd, tol=tol, **W)
+    # the same dataset masked with ANOTHER mask first and then with this one (the mask widened or moved to another object): still the
+    # data of the simulated image under this mask, fitted with zero residual
+    m_first = np.roll(m, 1, axis=1) | (rng.random(m.shape) < 0.2)
+    if m_first.all():
+        m_first = m.copy()
+    ok2, md2 = ctx.guarded("simulate.remasked", lambda: ds.apply_mask(mask=aa.Mask2D(mask=m_first.copy(), pixel_scales=ps, origin=origin)).apply_mask(mask=mask))
+    if ok2 and tuple(md2.data.shape_native) == m.shape:
+        d2 = _np(md2.data)
+        ctx.check(d2.shape == data.shape and float(np.abs(d2 - data).max()) <= tol and float(np.abs(_np(md2.noise_map) - _np(md.noise_map)).max()) <= tol,
+                  "simulate.remasked", first_mask=m_first, got=d2, expected=data, **W)
     ctx.case("sim", m, k, nontrivial=k.size > 1, cls=["sim", "sim_kernel:%s" % kind],
              sample=lambda: {"sim": True, "mask": m.astype(int).tolist(), "kernel": k.tolist(), "sky": sky})
 
